@@ -448,8 +448,16 @@ class MarkFeatureWriter(BaseFeatureWriter):
         allMarkClasses = self.context.markClasses = {}
         classPrefix = self.markClassPrefix
         newDefs = []
+        taken = set()  # names of the classes made here for other anchor names
         for markAnchorName, glyphAnchorPairs in sorted(markGlyphSets.items()):
             className = ast.makeFeaClassName(classPrefix + markAnchorName)
+            if className in taken:
+                # another anchor name is spelled the same once the characters that
+                # are not legal in a class name are removed ("top-x" and "topx"):
+                # marks of different anchors must not share a class
+                className = ast.makeFeaClassName(
+                    className, taken | set(currentClasses)
+                )
             existing = currentClasses.get(className)
             if existing is not None and any(
                 glyphName in existing.glyphs
@@ -476,6 +484,7 @@ class MarkFeatureWriter(BaseFeatureWriter):
                     # this may be different because of name clashes
                     className = mcd.markClass.name
                 allMarkClasses[anchor.key] = currentClasses[className]
+            taken.add(className)
         return newDefs
 
     def _defineMarkClass(self, glyphName, x, y, className, markClasses):
